@@ -5,15 +5,23 @@ M: TLC explores spec/EwLsq.tla: the decision table Outcome(method, weights kind,
    array weights, removal of zeros after ranking) for ALL vectors of length <= 4 over {0..3} with
    all weight vectors over {1,2} and the keyword weights; mutation configs (weights not co-sorted,
    zeros removed before ranking, positions i/n) must violate OrderInvariant / KeywordEqualsArray /
-   PositionsAfterRanking.
+   PositionsAfterRanking; a process-wide table of linearised positions keyed by the sample size must violate
+   LinearisedForOwnDelta (history: an earlier fixed-delta fit on an equally long sample).
 R: the same module emits every enumerated input (table rows and small vectors); EwLsqCases.tla
    enumerates the law cases (weights kind x delta fixed/free x method x sample class x n x rep).
 V: the driver runs the real fit for each: table rows -> outcome; small vectors -> what _fit_lsq
    hands to the regression (recording wrapper around the static _estimate_alpha_beta); law cases
    -> deviations from an independent weighted regression (numpy.linalg.lstsq on sqrt(w)-scaled
-   rows) and between metamorphic variants; spec/Trace_C13.tla judges every record.
+   rows) and between metamorphic variants; every law fit is made four times - as the first fit of a fresh
+   forked process (history-free reference), in a fresh process directly after a fixed-delta fit of another
+   instance on an equally long sample (EarlierFitDoesNotLeak), in the run's sequence, and again in another
+   seeded order - and must return bit-identical parameters (CaseOrderIndependent); spec/Trace_C13.tla judges every record.
 """
+import json
 import math
+import os
+import select
+import struct
 import warnings
 import zlib
 
@@ -146,20 +154,110 @@ def do_fit(vc, x, method, weights, fdelta):
     return float(d.alpha), float(d.beta), float(d.delta)
 
 
-def law_record(vc, rid, c, seed):
+def bits(vals):
+    """exact bit patterns of doubles as 22-bit limbs (TLC integers are 32 bit)"""
+    out = []
+    for v in vals:
+        b = struct.unpack(">Q", struct.pack(">d", float(v)))[0]
+        out += [b >> 44, (b >> 22) & 0x3FFFFF, b & 0x3FFFFF]
+    return out
+
+
+FDELTAS = [0.7, 1.0, 2.5, 1.6]
+
+
+def law_inputs(c, seed):
+    """sample, weights and the fixed delta of a law case (a function of the case and the seed only)"""
     rng = np.random.default_rng(zlib.crc32(f"{seed}|{c['cls']}|{c['n']}|{c['rep']}|{c['wk']}".encode()))
     x = sample(c["cls"], c["n"], rng)
+    warg, warr = weights_for(c["wk"], x, rng, c["cls"])
+    # different fixed deltas on samples of the SAME length within one run
+    fdelta = FDELTAS[zlib.crc32(law_key(c).encode()) % len(FDELTAS)] if c["fixed"] else None
+    return x, warg, warr, fdelta, rng
+
+
+def run_fresh(func, args_list, procs):
+    """func(arg) for every arg, each call as the only work of a freshly forked child of THIS process (so the
+    child's module state is the state of this process at the time of the call); returns the JSON-able results"""
+    results = [None] * len(args_list)
+    running = {}      # fd -> (index, pid, buffer)
+    nxt = 0
+    while nxt < len(args_list) or running:
+        while nxt < len(args_list) and len(running) < procs:
+            rfd, wfd = os.pipe()
+            pid = os.fork()
+            if pid == 0:
+                os.close(rfd)
+                try:
+                    out = json.dumps(func(args_list[nxt]))
+                except BaseException as e:  # noqa
+                    out = json.dumps({"__exc__": f"{type(e).__name__}: {e}"[:200]})
+                with os.fdopen(wfd, "w") as fh:
+                    fh.write(out)
+                os._exit(0)
+            os.close(wfd)
+            running[rfd] = (nxt, pid, [])
+            nxt += 1
+        ready, _, _ = select.select(list(running), [], [])
+        for fd in ready:
+            chunk = os.read(fd, 1 << 16)
+            idx, pid, buf = running[fd]
+            if chunk:
+                buf.append(chunk)
+            else:
+                os.close(fd)
+                os.waitpid(pid, 0)
+                del running[fd]
+                results[idx] = json.loads(b"".join(buf).decode() or "null")
+    return results
+
+
+def fresh_fit(arg):
+    """the fit of a law case in a fresh process: as its first fit (history False), or directly after a
+    fixed-delta least-squares fit of ANOTHER instance on an equally long sample (history True)"""
+    c, seed, history = arg
+    vc = import_virocon()
+    x, warg, warr, fdelta, _ = law_inputs(c, seed)
+    with warnings.catch_warnings():
+        warnings.simplefilter("ignore")
+        if history:
+            do_fit(vc, x[::-1].copy(), c["method"], None, fdelta * 1.7 if fdelta is not None else 1.9)
+        return bits(do_fit(vc, x, c["method"], warg, fdelta))
+
+
+def fresh_fits(cases, seed):
+    """must be called before anything is fitted in this process (the children are forked from it);
+    returns (bits0, bitsH) per case"""
+    procs = max(1, min(12, (os.cpu_count() or 2) - 2))
+    args = [(c, seed, h) for c in cases for h in (False, True)]
+    res = [r if isinstance(r, list) else [] for r in run_fresh(fresh_fit, args, procs)]
+    return list(zip(res[0::2], res[1::2]))
+
+
+def law_again(vc, c, seed):
+    """history pass: first ANOTHER instance with a different fixed delta is fitted by least squares to an
+    equally long sample, then the fit of the case is repeated; returns the bit patterns of its result"""
+    x, warg, warr, fdelta, _ = law_inputs(c, seed)
+    other_delta = fdelta * 1.7 if fdelta is not None else 1.9
+    with warnings.catch_warnings():
+        warnings.simplefilter("ignore")
+        do_fit(vc, x[::-1].copy(), c["method"], None, other_delta)
+        return bits(do_fit(vc, x, c["method"], warg, fdelta))
+
+
+def law_record(vc, rid, c, seed):
+    x, warg, warr, fdelta, rng = law_inputs(c, seed)
     x0 = x.copy()
     wk, method = c["wk"], c["method"]
-    warg, warr = weights_for(wk, x, rng, c["cls"])
-    fdelta = [0.7, 1.0, 2.5][(c["rep"] + c["n"]) % 3] if c["fixed"] else None
     haszeros = bool(np.any(x == 0))
     rec = dict(id=rid, kind="law", wk=wk, fixed=bool(c["fixed"]), n=c["n"], exc="", haszeros=haszeros,
-               tiecons=True, variants=[], g=0, ab=0, dq=0, dfix=0, pos=True, em=0, ep=0, hq=0, emdef=True, epdef=True)
+               tiecons=True, variants=[], g=0, ab=0, dq=0, dfix=0, pos=True, em=0, ep=0, hq=0, emdef=True, epdef=True,
+               bits0=[], bitsH=[], bitsA=[], bitsB=[])
     with warnings.catch_warnings():
         warnings.simplefilter("ignore")
         try:
             al, be, de = do_fit(vc, x, method, warg, fdelta)
+            rec["bitsA"] = rec["bitsB"] = rec["bits0"] = rec["bitsH"] = bits([al, be, de])
             pos = all(math.isfinite(v) for v in (al, be, de)) and al > 0 and be > 0 and de > 0
             rec.update(pos=bool(pos), dq=q6(de) if pos else 0)
             if not pos:
@@ -353,6 +451,9 @@ def selftest(ctx, law_recs, disc_recs, failing):
     m(free_arr, "DeltaLocalMin", em=-5000)
     m(free_arr, "DeltaLocalMin", hq=free_arr["hq"] + 10)
     m(free_arr, "DeltaLocalMin", emdef=False, epdef=False)
+    m(fix_kw, "CaseOrderIndependent", bitsB=fix_kw["bitsB"][:-1] + [fix_kw["bitsB"][-1] ^ 1])
+    m(fix_kw, "CaseOrderIndependent", bits0=fix_kw["bits0"][:-1] + [fix_kw["bits0"][-1] ^ 1])
+    m(fix_kw, "EarlierFitDoesNotLeak", bitsH=fix_kw["bitsH"][:-1] + [fix_kw["bitsH"][-1] ^ 1])
     m(dict(id=0, kind="table", method="lsq", wk="none", fixedset=[], outcome="ValueError"), "OutcomeTable")
     m(dict(id=0, kind="table", method="wlsq", wk="cubic", fixedset=["alpha"], outcome="fit-free-delta"), "OutcomeTable")
     if dgood is not None:
@@ -371,7 +472,7 @@ def selftest(ctx, law_recs, disc_recs, failing):
 def run(ctx):
     vc = import_virocon()
     ctx.rule = ("TLC-enumerated: (a) every (method, weights kind, fixed set) row of the decision table; (b) every data "
-                "vector of length <= 4 (model; real code: <= 3 quick, <= 4 thorough) over {0..3} x every weight vector over {1,2} and the "
+                "vector of length <= 3 (quick) / 4 (thorough) over {0..3} x every weight vector over {1,2} and the "
                 "keyword/None weights x delta fixed/free x method; (c) law cases weights kind x delta fixed/free x "
                 "method x sample class {ew, weibull, lognormal, uniform, zeros, ties} x n x replicate on seeded real-valued "
                 "samples in random order. distinct = distinct case key; non-trivial: table rows all; small vectors "
@@ -394,6 +495,7 @@ def run(ctx):
     ctx.model_check("EwLsq", "MC_EwLsq_mut_cosort2.cfg", expect_violation="KeywordEqualsArray", workers=4)
     ctx.model_check("EwLsq", "MC_EwLsq_mut_zeros.cfg", expect_violation="PositionsAfterRanking", workers=4)
     ctx.model_check("EwLsq", "MC_EwLsq_mut_pos.cfg", expect_violation="PositionsAfterRanking", workers=4)
+    ctx.model_check("EwLsq", "MC_EwLsq_mut_sharedpos.cfg", expect_violation="LinearisedForOwnDelta", workers=4)
     # ---- R
     inputs = ctx.generate("EwLsq", ctx.pick("Gen_EwLsq_quick.cfg", "Gen_EwLsq_thorough.cfg"))
     lawcases = ctx.generate("EwLsqCases", ctx.pick("Gen_EwLsqCases_quick.cfg", "Gen_EwLsqCases_thorough.cfg"))
@@ -406,6 +508,7 @@ def run(ctx):
     discrete = [c for c in inputs if c["method"] in ("lsq", "wlsq") and c["wk"] not in ("unknown", "scalar")
                 and set(c["fixed"]) <= {"delta"}]
     lawcases.sort(key=law_key)
+    bits0 = fresh_fits(lawcases, ctx.seed)      # before the first fit in this process
     # ---- V
     recs, keys, nontriv, replays = [], [], [], []
     rng = np.random.default_rng(ctx.seed + 13)
@@ -425,10 +528,23 @@ def run(ctx):
             ctx.assumptions.append("_estimate_alpha_beta is no longer a static method of the class: the discrete "
                                    "pipeline was judged through the regression laws only (API-level projection)")
     law_recs = []
-    for c in lawcases:
+    for c, b0 in zip(lawcases, bits0):
         r, _ = law_record(vc, len(recs) + 1, c, ctx.seed)
+        if not r["exc"]:
+            r["bits0"], r["bitsH"] = b0
         recs.append(r); law_recs.append(r)
         keys.append(law_key(c)); nontriv.append(r["exc"] == "" and r["pos"]); replays.append(dict(kind="law", **c))
+    # history: the law fits again in the same process, in another seeded order, each preceded by a fixed-delta
+    # least-squares fit of another instance on an equally long sample
+    order = np.random.default_rng(ctx.seed + 131).permutation(len(lawcases))
+    for j in order:
+        r = law_recs[j]
+        if r["exc"]:
+            continue
+        try:
+            r["bitsB"] = law_again(vc, lawcases[j], ctx.seed)
+        except Exception as e:  # noqa
+            r["exc"] = f"history: {type(e).__name__}: {e}"[:200]
     failing = ctx.validate("Trace_C13", "Trace_C13.cfg", recs, chunk=20000)
     for r, k, nt, rp in zip(recs, keys, nontriv, replays):
         ctx.case(k, nt)
@@ -459,7 +575,11 @@ def replay(ctx, case):
         with Recorder(vc) as rec_:
             r, k = discrete_record(vc, rec_, 1, c), disc_key(c)
     else:
+        b0 = fresh_fits([c], ctx.seed)[0]
         (r, _), k = law_record(vc, 1, c, ctx.seed), law_key(c)
+        if not r["exc"]:
+            r["bits0"], r["bitsH"] = b0
+            r["bitsB"] = law_again(vc, c, ctx.seed)
     failing = ctx.validate("Trace_C13", "Trace_C13.cfg", [r])
     ctx.case(k, True)
     for clause in failing.get(1, []):
